@@ -158,7 +158,8 @@ def r2_accounting(ctx, f, rep):
                     nseg['fit'] += 1
                     if not complete and not (puts and decs):
                         continue
-                    good = len(puts) == 1 and len(taken) == 1 and len(decs) == 1 and len(lim) == 1 and len(pref) == (1 if prefix else 0)
+                    # (the item budget may be a second counter stepped down, or the loop may bound the taken-counter itself)
+                    good = len(puts) == 1 and len(taken) == 1 and len(decs) == 1 and len(lim) <= 1 and len(pref) == (1 if prefix else 0)
                     if good:
                         d = decs[0]['value']
                         good = d == ('binop', 'Sub', ('fieldv', node, 'remaining_tx', None), ('const', 'usize', 1, '1_usize')) or \
@@ -198,6 +199,10 @@ def r2_accounting(ctx, f, rep):
                         break
                     if q.zero_test(c, lambda v: v[0] == 'loopvar') == 'zero':
                         exits.add('max-items')
+                        break
+                    nrm = q.cmp_norm(c)
+                    if nrm and nrm[0] == 'ge' and nrm[1][0] == 'loopvar' and nrm[2] == ('param', 0, 3):
+                        exits.add('max-items')      # `num_taken < max_items` failed
                         break
                     if ex[0] == 'discr':
                         exits.add('heap-empty')
@@ -272,6 +277,32 @@ def r3_order(ctx, f, rep):
         n += 1
         calls = {c['id']: c for c in p.calls()}
         cmps = [c for c in p.calls() if _is_usize_cmp(c)]
+        tup = [c for c in p.calls() if c['res'].startswith('core::tuple::<impl core::cmp::Ord for (') and c['res'].endswith('>::cmp')]
+        if not cmps and len(tup) == 1 and p.ret == ('call', tup[0]['id']):
+            # `(self.remaining_tx, self.data.len()).cmp(&(other.remaining_tx, other.data.len()))`: lexicographic by construction
+            sides = []
+            for k in (0, 1):
+                tv = (tup[0].get('derefs') or [None, None])[k]
+                cur = []
+                if tv is not None and tv[0] == 'agg' and tv[1] == 'tuple' and len(tv[5]) == 2:
+                    for x in tv[5]:
+                        x = q.peel(x)
+                        if x[0] == 'load' and q.field_path(x[1])[1][-1:] == ['remaining_tx']:
+                            root = q.place_root(x[1])
+                            cur.append(({('deref', ('param', 0, 1)): 'self', ('deref', ('param', 0, 2)): 'other'}.get(root), 'tx'))
+                        elif x[0] == 'call' and x[1] in calls and calls[x[1]]['res'].endswith('::len'):
+                            la = calls[x[1]]['args'][0]
+                            root = q.place_root(la[1]) if la[0] == 'ref' else None
+                            ok_data = la[0] == 'ref' and q.field_path(la[1])[1][-1:] == ['data']
+                            cur.append(({('deref', ('param', 0, 1)): 'self', ('deref', ('param', 0, 2)): 'other'}.get(root)
+                                        if ok_data else None, 'len'))
+                        else:
+                            cur.append((None, None))
+                sides.append(cur)
+            rep.check(sides == [[('self', 'tx'), ('self', 'len')], [('other', 'tx'), ('other', 'len')]], 'C15-R3', b.nname,
+                      'cmp = (self.remaining_tx, self.data.len()) lexicographically against (other.remaining_tx, '
+                      'other.data.len())', construct='entry-cmp')
+            continue
         good = bool(cmps) and [_cmp_side(b, b, p, cmps[0], 0), _cmp_side(b, b, p, cmps[0], 1)] == [('self', 'tx'), ('other', 'tx')]
         first = ('call', cmps[0]['id']) if cmps else None
         second_ok = False
@@ -407,11 +438,10 @@ def r4_r5_consumers_enqueuers(ctx, f, rep):
                     keyed = calls[key[5][0][1]]['derefs'][0]      # the identity whose address is the key
                     # the serialised member: data = (serialize_member(M)?).Continue.0
                     ser = [c for c in p.calls() if c['res'] == 'Foca::serialize_member']
-                    good = len(ser) >= 1 and q.mentions(data, lambda x: x[0] == 'call' and x[1] in calls and
-                                                         calls[x[1]]['decl'].endswith('Try::branch'))
+                    good = len(ser) >= 1 and q.ok_payload_of(p, data) in [c['id'] for c in ser]
                     why = 'data is not the result of serialize_member'
                     if good:
-                        m = ser[-1]['args'][1]
+                        m = [c for c in ser if c['id'] == q.ok_payload_of(p, data)][0]['args'][1]
                         if m[0] == 'agg':
                             mid = q.agg_field(m, 'id')
                             good = mid == keyed
